@@ -1,4 +1,15 @@
-"""C02 — FPS / PCov-FPS pick a farthest candidate each step and report true distances."""
+"""C02 — FPS / PCov-FPS pick a farthest candidate each step and report true distances.
+
+Families (all generated from ctx.rng):
+  exact      integer lattices, FPS both directions / PCov-FPS samples (mixing k/4, 1-3 targets), int / list /
+             random initialisation, power-of-two rescaling, earlier fit of the same object, warm-started
+             second stage; model Model/FPS.v compared bit for bit inside Coq (every stage)
+  float replay  PCov-FPS loop on the implementation's own pcovr_distance_, bit for bit (Model/FPSFloat.v)
+  dist       PCov-FPS on float data, both directions: pcovr_distance_ entrywise against cov_prog / kern_prog
+             (Model/PCovFPSDist.v), histories (earlier fits, warm continuation), loop replay, and the
+             brute-force oracle against independently recomputed distances on EVERY case (harness/c02_feat.py)
+  fpsfloat   plain FPS on float64 / float32 / Fortran-ordered data, brute-force oracle (harness/c02_feat.py)
+"""
 import math
 
 import numpy as np
@@ -10,7 +21,8 @@ from harness import c02_feat as F
 ANCHORS = {"src/skmatter/_selection.py": [
     "_FPS._init_greedy_search", "_FPS._update_hausdorff", "_FPS._update_post_selection",
     "_PCovFPS._init_greedy_search", "_PCovFPS._update_hausdorff",
-    "GreedySelector._get_best_new_selection", "GreedySelector.fit"],
+    "GreedySelector._get_best_new_selection", "GreedySelector.fit",
+    "GreedySelector._continue_greedy_search", "_PCovFPS._update_post_selection"],
     "src/skmatter/utils/_pcovr_utils.py": ["pcovr_kernel", "pcovr_covariance"]}
 
 
@@ -335,7 +347,7 @@ def dist_family(ctx, stats, dcases, dress, dsh, douts):
 def fps_float_family(ctx, stats):
     """plain FPS on float data (float64 / float32 / Fortran order, both directions, warm continuation):
     brute-force oracle only."""
-    nf = 600 if ctx.quick else 6000
+    nf = 1200 if ctx.quick else 6000
     st = dict(cases=nf, axis1=0, float32=0, fortran=0, warm_continued=0, multi_init=0, random_init=0, failures=0)
     for _ in range(nf):
         c = F.gen_fpsfloat_case(ctx.rng, ctx.quick)
@@ -360,7 +372,7 @@ def fps_float_family(ctx, stats):
 
 def run(ctx):
     po = C.proof_obligations(ctx.prop, extra_targets=["Model/FPSFloat.vo", "Model/PCovFPSDist.vo"])
-    ncases = 900 if ctx.quick else 12000
+    ncases = 1200 if ctx.quick else 12000
     cases, recs = [], []
     stats = dict(kinds={}, families={}, ties=0, multi_init=0, random_init=0, errors=0)
     for _ in range(ncases):
@@ -418,7 +430,7 @@ def run(ctx):
     stats["float_replay_cases"] = len(fcases)
     stats["float_replay_axis1"] = sum(c["axis"] == 1 for c in fcases)
     # distance-matrix family: pcovr_distance_ against cov_prog / kern_prog, histories, loop replay
-    ndist = 400 if ctx.quick else 4000
+    ndist = 700 if ctx.quick else 2500
     dcases = [F.gen_dist_case(ctx.rng, ctx.quick, shape=F.SHAPES[i % 3] if i < 30 else None) for i in range(ndist)]
     dress = [F.run_dist_impl(c) for c in dcases]
     dsh = F.Shards()
